@@ -81,6 +81,12 @@ class Machine:
             f = self._mk(a[1])
             self.nf = max(self.nf, a[1])
             return self._new(L[a[0]].map(f))
+        if op == "map_ambiguous":
+            class Both(list):
+                def __call__(self, x):
+                    return x
+
+            return self._new(L[a[0]].map(Both([self._mk(1)])))
         if op == "map_each":
             first, k = a[1], a[2]
             fs = [self._mk(first + i) for i in range(k)]
